@@ -28,7 +28,7 @@ func newReduceMin() ops.Operator {
 // Init initializes the reduceMin operator.
 func (r *ReduceMin) Init(n *onnx.NodeProto) error {
 	attributes := n.GetAttribute()
-	if len(attributes) == 0 || len(attributes) > MaxReduceMinAttributes {
+	if len(attributes) > MaxReduceMinAttributes {
 		return ops.ErrInvalidOptionalAttributeCount(MinReduceMinAttributes, MaxReduceMinAttributes, len(attributes), r)
 	}
 
@@ -55,9 +55,22 @@ func (r *ReduceMin) Init(n *onnx.NodeProto) error {
 func (r *ReduceMin) Apply(inputs []tensor.Tensor) ([]tensor.Tensor, error) {
 	input := tensor.New(tensor.WithBacking(inputs[0].Data()), tensor.WithShape(inputs[0].Shape()...))
 
+	rank := len(input.Shape())
+
 	axes := make([]int, len(r.axes))
 	for i, axis := range r.axes {
-		axes[i] = ops.ConvertNegativeAxis(axis, len(input.Shape()))
+		if axis < -rank || axis >= rank {
+			return nil, ops.ErrAxisOutOfRange(-rank, rank, axis)
+		}
+
+		axes[i] = ops.ConvertNegativeAxis(axis, rank)
+	}
+
+	// When no axes are given, all axes are reduced.
+	if len(axes) == 0 {
+		for axis := 0; axis < rank; axis++ {
+			axes = append(axes, axis)
+		}
 	}
 
 	out, err := input.Min(axes...)
